@@ -348,3 +348,5 @@ Definition expected_src_len : string :=
   "{ struct Exception * e = self ; return e -> depth ; }".
 Definition expected_src_error : string :=
   "{ print_to ( $ ( File , stderr ) , 0 , ""\n"" ) ; print_to ( $ ( File , stderr ) , 0 , ""!!\t\n"" ) ; print_to ( $ ( File , stderr ) , 0 , ""!!\tUncaught %$\n"" , e -> obj ) ; print_to ( $ ( File , stderr ) , 0 , ""!!\t\n"" ) ; print_to ( $ ( File , stderr ) , 0 , ""!!\t\t %s\n"" , e -> msg ) ; print_to ( $ ( File , stderr ) , 0 , ""!!\t\n"" ) ; Exception_Backtrace ( ) ; exit ( EXIT_FAILURE ) ; }".
+Definition expected_src_signal : string :=
+  "{ switch ( sig ) { case SIGABRT : throw ( ProgramAbortedError , ""Program Aborted"" ) ; case SIGFPE : throw ( DivisionByZeroError , ""Division by Zero"" ) ; case SIGILL : throw ( IllegalInstructionError , ""Illegal Instruction"" ) ; case SIGINT : throw ( ProgramInterruptedError , ""Program Interrupted"" ) ; case SIGSEGV : throw ( SegmentationError , ""Segmentation fault"" ) ; case SIGTERM : throw ( ProgramTerminationError , ""Program Terminated"" ) ; } }".
